@@ -4,8 +4,8 @@
    ring_theory / field_theory, so they cover the reals and the complex numbers. *)
 From Coq Require Import ZArith List Bool Lia Ring Field.
 From IBL.lib Require Import PyInt.
-From Coq Require Import Reals.
-From IBL.C18 Require Import Model Sums Proofs Conv Half Filter Rfft ModelR ProofsR.
+From Coq Require Import Reals QArith.
+From IBL.C18 Require Import Model Sums Proofs Conv Half Filter Rfft ModelR ProofsR Inst.
 Import ListNotations.
 Open Scope Z_scope.
 
@@ -329,3 +329,58 @@ Example C18_example_half :
   fexpand (0, 0) cj [(6, 0); (1, 2); (3, -1)] 5 = Some [(6, 0); (1, 2); (3, -1); (3, 1); (1, -2)] /\
   fexpand (0, 0) cj [(6, 0); (1, 2); (3, -1); (4, 0)] 6 = Some [(6, 0); (1, 2); (3, -1); (4, 0); (3, 1); (1, -2)].
 Proof. vm_compute. repeat split. Qed.
+
+(* ---- the field / root / conjugation hypotheses are satisfiable ---------------- *)
+(* Gaussian rationals Q(i) (Inst.v), N = 4 (even: the Nyquist bin is exercised),
+   om = -i = exp(-2 pi i/4), conj = complex conjugation (not the identity). *)
+Example C18_example_hypotheses_satisfiable :
+  field_theory g0 g1 gadd gmul gsub gopp gdiv ginv (@eq G) /\
+  rpow G g1 gmul om4 4 = g1 /\ gmul om4 omi4 = g1 /\
+  (forall d, (0 < d < 4)%nat -> rpow G g1 gmul om4 d <> g1) /\
+  gmul inv4 (rsum G g0 gadd 4 (fun _ => g1)) = g1 /\ gmul ghalf (gadd g1 g1) = g1 /\
+  (forall a b, gconj (gadd a b) = gadd (gconj a) (gconj b)) /\
+  (forall a b, gconj (gmul a b) = gmul (gconj a) (gconj b)) /\
+  gconj g1 = g1 /\ gconj om4 = omi4 /\ (forall v, gconj (gsub g1 v) = gsub g1 (gconj v)).
+Proof.
+  destruct inst_root as (H1 & H2 & H3 & H4 & H5). destruct inst_conj as (C1 & C2 & C3 & C4 & C5).
+  exact (conj Gft (conj H1 (conj H2 (conj H3 (conj H4 (conj H5 (conj C1 (conj C2 (conj C3 (conj C4 C5)))))))))).
+Qed.
+
+(* the theorems instantiated there, and the same values obtained by evaluation *)
+Example C18_example_rfft_instance :
+  let x := map (fun z => gq z 0) [1; 2; 0; 0]%Z in
+  let w := map (fun z => gq z 0) [3; 4; 0; 0]%Z in
+  rfft_conv G g0 g1 gadd gmul om4 omi4 inv4 ghalf gconj 4 x w =
+    spectral_conv G g0 g1 gadd gmul om4 omi4 inv4 4 x w /\
+  (forall k, (k < 4)%nat -> nth k (spectral_conv G g0 g1 gadd gmul om4 omi4 inv4 4 x w) g0 =
+                            circ_conv_at G g0 gadd gmul 4 x w k) /\
+  map gview (rfft_conv G g0 g1 gadd gmul om4 omi4 inv4 ghalf gconj 4 x w) =
+    [(Qmake 3 1, Qmake 0 1); (Qmake 10 1, Qmake 0 1); (Qmake 8 1, Qmake 0 1); (Qmake 0 1, Qmake 0 1)].
+Proof.
+  intros x w. destruct inst_root as (H1 & H2 & H3 & H4 & H5). destruct inst_conj as (C1 & C2 & C3 & C4 & C5).
+  split; [|split].
+  - apply (C18_rfft_path_equals_full G g0 g1 gadd gmul gsub gopp gdiv ginv Gft 4%nat om4 omi4 inv4
+             ltac:(lia) H1 H2 H3 H4 gconj ghalf C1 C2 C3 C4 H5); apply real_gq.
+  - intros k Hk. apply (C18_circular_convolution_theorem G g0 g1 gadd gmul gsub gopp gdiv ginv Gft 4%nat
+                          om4 omi4 inv4 ltac:(lia) H1 H2 H3 H4 x w k Hk).
+  - vm_compute. reflexivity.
+Qed.
+
+(* convolve 'full' through the half-spectrum path: [1, 2] * [3, 4] = [3, 10, 8, 0] *)
+Example C18_example_convolve_rfft_instance :
+  let x := map (fun z => gq z 0) [1; 2]%Z in
+  let w := map (fun z => gq z 0) [3; 4]%Z in
+  exists l, convolve_full_with G g0 (rfft_conv G g0 g1 gadd gmul om4 omi4 inv4 ghalf gconj) x w = Some l /\
+    map gview l = [(Qmake 3 1, Qmake 0 1); (Qmake 10 1, Qmake 0 1); (Qmake 8 1, Qmake 0 1); (Qmake 0 1, Qmake 0 1)] /\
+    forall k, (k < 4)%nat -> nth k l g0 = conv_direct_at G g0 gadd gmul x w k.
+Proof.
+  intros x w. destruct inst_root as (H1 & H2 & H3 & H4 & H5). destruct inst_conj as (C1 & C2 & C3 & C4 & C5).
+  assert (Hns : ns_optim (Z.of_nat (length x + length w)) = Some (Z.of_nat 4)) by (vm_compute; reflexivity).
+  set (l := firstn 4 (rfft_conv G g0 g1 gadd gmul om4 omi4 inv4 ghalf gconj 4
+                        (zero_pad G g0 x 4) (zero_pad G g0 w 4))).
+  assert (Hfull : convolve_full_with G g0 (rfft_conv G g0 g1 gadd gmul om4 omi4 inv4 ghalf gconj) x w = Some l)
+    by (vm_compute; reflexivity).
+  exists l. split; [exact Hfull|]. split; [vm_compute; reflexivity|].
+  apply (C18_fft_conv_full_rfft G g0 g1 gadd gmul gsub gopp gdiv ginv Gft 4%nat om4 omi4 inv4
+           ltac:(lia) H1 H2 H3 H4 gconj ghalf C1 C2 C3 C4 H5 x w l (real_gq _) (real_gq _) Hns Hfull).
+Qed.
